@@ -13,6 +13,10 @@ open Proto Ex
                                               `a` ExtractArchive and `am` ExtractArchiveWithMask on the archive written
                                               to a file; `missing` / `cut` = ExtractArchive(WithMask: mask word non-zero
                                               selects it) on a path that does not exist / a file cut to 100 bytes
+      `dl:<k>`                                the destination is a symbolic link: the sandbox's `dst/…` is created as
+                                              `real/…` and `dst -> real` (k=1), `-> /tmp/@T@/real` (2), `-> ./real/` (3),
+                                              `-> mid -> real` (4), `-> ../@T@/real` (5); area dstlinkm: the resolving
+                                              model follows the link as the kernel does
       `r:2`                                   the archive is extracted twice into the same destination (`ok,err` …)
       `w:<n>`                                 write fault: during the extraction no file can grow beyond n bytes (the
                                               write of a longer payload stops after n bytes with an error)
@@ -48,7 +52,14 @@ def relPath (b : List Nat) : P := (splitSlash b).filter (· ≠ [])
 def fnv (l : List Nat) : Nat :=
   (l.foldl (fun (h : UInt32) b => (h ^^^ b.toUInt32) * 16777619) 2166136261).toNat
 
-def applyInit (fs : FS) (f : List String) : Option FS :=
+/-- `dl:1`: the sandbox's `dst` subtree is created as `real`, and `dst` is a symbolic link to it -/
+def placeRel (dl : Bool) (p : P) : P :=
+  match p with
+  | c :: t => if dl && c == [100, 115, 116] then [114, 101, 97, 108] :: t else c :: t
+  | [] => []
+
+def applyInit (dl : Bool) (fs : FS) (f : List String) : Option FS :=
+  let relPath := fun (b : List Nat) => placeRel dl (relPath b)
   match f with
   | ["i", "d", rel, mode] => do
     let r ← hexBytes? rel; let m ← octNat? mode
@@ -80,6 +91,10 @@ def parseEntry (zip : Bool) (f : List String) : Option Entry :=
       if nm.getLast? == some 47 then pure { kind := kind, name := nm, mode := m } else
       -- a file entry whose central-directory size is one more ("L": the reader reports the missing byte after the
       -- whole payload) or one less ("S": the reader refuses the first chunk, nothing is written) than its payload
+      -- an entry that cannot be opened: compression method 99 ("M" / length field 99 of a symlink entry), local file
+      -- header destroyed ("H" / 98); directory entries are never opened
+      if (k == "f" && kind == .reg && (lk == [77] || lk == [72])) || (k == "s" && kind == .symlink && (n == 99 || n == 98)) then
+        pure { kind := .corrupt, name := nm, mode := m } else
       if k == "f" && kind == .reg && lk == [76] then
         pure { kind := kind, name := nm, mode := m, data := pattern s n, short := true } else
       if k == "f" && kind == .reg && lk == [83] then
@@ -140,20 +155,30 @@ def step (_ : Unit) (line : String) : Unit × String :=
         let zip := fmt == "zip"
         let via := (items.filter (·.startsWith "v:")).getLast?.getD "v:"
         let twice := items.contains "r:2"
-        let items := items.filter (fun w => !w.startsWith "v:" && !w.startsWith "r:")
+        let dlItem := (items.filter (·.startsWith "dl:")).getLast?.getD ""
+        let dl := dlItem != ""
+        let items := items.filter (fun w => !w.startsWith "v:" && !w.startsWith "r:" && !w.startsWith "dl:")
         if !["v:", "v:x", "v:a", "v:am", "v:missing", "v:cut"].contains via then "bad-op" else
         let rec go (fs : FS) (es : List Entry) (lim : Option Nat) : List String → Option (FS × List Entry × Option Nat)
           | [] => some (fs, es.reverse, lim)
           | w :: ws =>
             let f := w.splitOn ":"
             match f with
-            | "i" :: _ => match applyInit fs f with | some fs' => go fs' es lim ws | none => none
+            | "i" :: _ => match applyInit dl fs f with | some fs' => go fs' es lim ws | none => none
             | "e" :: _ => match parseEntry zip f with | some e => go fs (e :: es) lim ws | none => none
             | ["w", n] => match n.toNat? with | some k => go fs es (some k) ws | none => none
             | _ => none
         match go fs0 [] none items with
         | none => "bad-op"
         | some (fs, es, lim) =>
+          let bytes (t : String) : List Nat := t.toUTF8.toList.map (·.toNat)
+          let fs :=
+            if dlItem == "dl:2" then fs.put dstRoot (.symlink (bytes "/tmp/@T@/real"))
+            else if dlItem == "dl:3" then fs.put dstRoot (.symlink (bytes "./real/"))
+            else if dlItem == "dl:4" then
+              (fs.put (sandbox ++ [bytes "mid"]) (.symlink (bytes "real"))).put dstRoot (.symlink (bytes "mid"))
+            else if dlItem == "dl:5" then fs.put dstRoot (.symlink (bytes "../@T@/real"))
+            else if dl then fs.put dstRoot (.symlink (bytes "real")) else fs
           let es := match lim with
             | none => es
             | some k => es.map fun e =>
